@@ -689,6 +689,61 @@ def mon_C09(case):
     return out
 
 
+# ------------------------------------------------------------------------------------------------ C05 (announced deltas)
+
+def apply_delta(old, d):
+    """what a client (or a proxy topic) computes from an announced change: `_` = unchanged, `+XY-Z` = delta, letters/N = new value"""
+    if d in ("_", ""):
+        return old
+    if d[0] in "+-":
+        cur = set(old.replace("N", "").replace("_", ""))
+        sign = "+"
+        for ch in d:
+            if ch in "+-":
+                sign = ch
+            elif sign == "+":
+                cur.add(ch)
+            else:
+                cur.discard(ch)
+        return "".join(c for c in LETTERS if c in cur) or "N"
+    return d
+
+
+def mon_C05(case):
+    out = []
+    for i, (o, ln) in enumerate(zip(case.ops, case.lines)):
+        if ln.plain is not None:
+            continue
+        pre = prev_state(case, i)
+        seen = set()
+        for sid, f in ln.frames:
+            if not f.startswith("pres ") or " what=acs" not in f or "dacs=" not in f:
+                continue
+            k = frame_kv(f)
+            t = f.split(" ")[1]
+            src = k.get("src", "-")
+            if src == "-":
+                # addressed to the affected user's own sessions: the recipient is the subject
+                c = ln.cache.get(t) or (pre.cache.get(t) if pre else None)
+                src = c["sess"].get(sid) if c else None
+                if src is None:
+                    continue
+            if (t, src, k["dacs"]) in seen:
+                continue
+            seen.add((t, src, k["dacs"]))
+            dw, dg = k["dacs"].split("/")
+            old = (pre.cache.get(t, {}).get("users", {}).get(src) if pre else None)
+            new = ln.cache.get(t, {}).get("users", {}).get(src)
+            ow, og = (old["want"], old["given"]) if old and not old["deleted"] else ("N", "N")
+            nw, ng = (new["want"], new["given"]) if new and not new["deleted"] else ("N", "N")
+            gw, gg = apply_delta(ow, dw), apply_delta(og, dg)
+            norm = lambda m: "".join(c for c in LETTERS if c in m) or "N"
+            if norm(gw) != norm(nw) or norm(gg) != norm(ng):
+                out.append((i, f"C05 announced change {k['dacs']} of {src} on {t}: applied to {ow}/{og} it gives {norm(gw)}/{norm(gg)}, "
+                               f"the topic now holds {norm(nw)}/{norm(ng)}"))
+    return out
+
+
 # ------------------------------------------------------------------------------------------------ C04 (layers 2-4)
 
 def req_ids(spec, last):
@@ -969,7 +1024,7 @@ def mon_C14(case):
     return out
 
 
-MONITORS = {"C04": mon_C04, "C01": mon_C01, "C02": mon_C02, "C03": mon_C03, "C06": mon_C06, "C07": mon_C07, "C08": mon_C08, "C09": mon_C09,
+MONITORS = {"C05": mon_C05, "C04": mon_C04, "C01": mon_C01, "C02": mon_C02, "C03": mon_C03, "C06": mon_C06, "C07": mon_C07, "C08": mon_C08, "C09": mon_C09,
             "C10": mon_C10, "C13": mon_C13, "C14": mon_C14}
 
 
